@@ -37,18 +37,23 @@ def confirm(sid, wt, prop, needs):
         json.dump(meta, open(os.path.join(d, 'meta.json'), 'w'), indent=1)
     return ok, log
 
-def run_checks(sid, props, tier='quick', extra=''):
-    """apply the seeded patch to /repo, run the given checks, undo. returns {prop: {rc, violation_lines}}"""
+def run_checks(sid, props, tier='quick', extra='', in_copy=False):
+    """apply the seeded patch to /repo (or, with in_copy, to a scratch worktree that the checks are pointed at through XSG_REPO), run the given checks, undo."""
     d = os.path.join(VERIF, 'seeded', sid)
-    rc, out = sh('git -C /repo status --porcelain')
-    if out.strip(): raise RuntimeError('/repo is not clean: ' + out)
-    rc, out = sh('git -C /repo apply %s/patch.diff' % d)
+    repo = '/repo'
+    if in_copy:
+        repo = '/tmp/xsg-seeded-%s' % sid
+        sh('git -C /repo worktree remove --force %s; git -C /repo worktree add -q --detach %s HEAD' % (repo, repo))
+    else:
+        rc, out = sh('git -C /repo status --porcelain')
+        if out.strip(): raise RuntimeError('/repo is not clean: ' + out)
+    rc, out = sh('git -C %s apply %s/patch.diff' % (repo, d))
     if rc != 0: raise RuntimeError('patch does not apply: ' + out)
     res = {}
     try:
         for p in props:
             t = time.time()
-            rc, out = sh('cd %s && VERIF_TIER=%s python3-vt -m checks.%s %s' % (VERIF, tier, p.lower(), extra))
+            rc, out = sh('cd %s && XSG_REPO=%s VERIF_TIER=%s python3-vt -m checks.%s %s' % (VERIF, repo, tier, p.lower(), extra))
             res[p] = {'rc': rc, 'wall_s': round(time.time() - t, 1), 'violations': [l for l in out.splitlines() if l.startswith('VIOLATION')][:4],
                       'inconclusive': [l[:300] for l in out.splitlines() if l.startswith('INCONCLUSIVE')][:3], 'summary': out.strip().splitlines()[-1] if out.strip() else ''}
             # keep the first replay file as documentation of what was found
@@ -59,7 +64,8 @@ def run_checks(sid, props, tier='quick', extra=''):
                         j = json.load(open(path)); res[p]['example'] = {'label': j.get('label'), 'input': j.get('input')}
                     except Exception: pass
     finally:
-        sh('git -C /repo checkout -- . && git -C /repo status --porcelain')
+        if in_copy: sh('git -C /repo worktree remove --force %s; rm -rf %s/build/*%s*' % (repo, VERIF, __import__('hashlib').sha1(repo.encode()).hexdigest()[:8]))
+        else: sh('git -C /repo checkout -- . && git -C /repo status --porcelain')
     mp = os.path.join(d, 'meta.json'); meta = json.load(open(mp))
     meta['detected_by'].update({p: {'detected': r['rc'] == 1 and bool(r['violations']), **r} for p, r in res.items()})
     json.dump(meta, open(mp, 'w'), indent=1)
@@ -72,5 +78,5 @@ if __name__ == '__main__':
         ok, log = confirm(sys.argv[2], sys.argv[3], sys.argv[4], sys.argv[5])
         print('CONFIRMED' if ok else 'NOT CONFIRMED', json.dumps(log, indent=1))
     elif cmd == 'run':
-        r = run_checks(sys.argv[2], sys.argv[3].split(','), *(sys.argv[4:5] or ['quick']))
+        r = run_checks(sys.argv[2], sys.argv[3].split(','), *(sys.argv[4:5] or ['quick']), in_copy='--copy' in sys.argv)
         for p, x in r.items(): print(p, 'rc', x['rc'], x['wall_s'], 's', x['violations'][:2], x['inconclusive'][:1], x.get('example'))
